@@ -945,10 +945,15 @@ def out_axes_problem(spec):
 
 
 def gen_scan_case(rng, kind):
+  # 'ok_bcast': a valid case with two or three in_axes=None non-graph leaves of distinct values (separate arguments, or
+  # one None prefix over a dict / tuple of arrays), each used differently by the function
+  bc2 = kind == 'ok_bcast'
+  if bc2:
+    kind = 'ok'
   for _ in range(300):
     n = rng.randint(1, 4)
     g = _Ctx()
-    form = rng.choice(['at', 'at', 'at', 'none', 'all'])
+    form = rng.choice(['at', 'at', 'at', 'none', 'all']) if not bc2 else rng.choice(['at', 'at', 'none'])
     if kind in ('carry_refs', 'multiple_carry', 'carry_mismatch'):
       form = 'at'
     if kind == 'carry_all_arity':
@@ -975,6 +980,16 @@ def gen_scan_case(rng, kind):
         prefixes.append(gen_state_axes(rng, pool))
       else:
         prefixes.append(rng.choice([0, 1, -1, 2, None]))
+    group = []
+    if bc2:
+      kb = rng.choice([2, 2, 3])
+      pos = rng.randrange(len(args) + 1)
+      args[pos:pos] = [{'arr': None} for _ in range(kb)]
+      prefixes[pos:pos] = [None] * kb
+      if cpos is not None and pos <= cpos:
+        cpos += kb
+      nargs += kb
+      group = list(range(pos, pos + kb))
     if not all(_acyclic(a) for a in args if 'arr' not in a):
       continue
     vars_ = {vid: {'type': g.types[vid]} for vid in g.vids}
@@ -988,6 +1003,15 @@ def gen_scan_case(rng, kind):
     for a, p in zip(args, prefixes):
       if 'arr' in a:
         a['arr'] = gen_values(rng, gen_shape_for(rng, p if isinstance(p, int) else None, n))
+    if group:
+      same_shape = rng.random() < 0.5
+      shape0 = tuple(rng.randint(1, 3) for _ in range(rng.randint(1, 2)))
+      for _try in range(50):
+        for j in group:
+          args[j]['arr'] = gen_values(rng, shape0 if same_shape else tuple(rng.randint(1, 3) for _ in range(rng.randint(0, 2))))
+        sums = [float(args[j]['arr'].sum()) for j in group]
+        if len(set(sums)) == len(sums):
+          break
     scanned_any = status == 'ok' and (any(isinstance(a, int) for a in roles.values()) or any(isinstance(p, int) for a, p in zip(args, prefixes) if 'arr' in a))
     length = None if scanned_any and rng.random() < 0.7 else n
     reverse = rng.random() < 0.4
@@ -1006,6 +1030,10 @@ def gen_scan_case(rng, kind):
       return 'nowrite' if roles[vid] is None and kind != 'bcast_write' else None
 
     prog, _ = gen_prog(rng, args, base, frozen, rng.randint(0, 3), rng.randint(0 if cpos is not None else 1, 2))
+    for c, j in zip([1, 2, -1], group):
+      prog['outs'].append(['tot', ['a', j], c])
+    if group and rng.random() < 0.5:
+      prog['outs'].append(['val', ['a', group[0]], 1])
     if kind == 'bcast_write':
       cand = [r for r in var_refs(args) if roles[ref_vid(r, args)] is None]
       if not cand:
@@ -1050,6 +1078,10 @@ def gen_scan_case(rng, kind):
         out_axes = {'t': outp}
     prog = {'stmts': prog['stmts'], 'outs': outs}
     case = {'t': 'scan', 'kind': kind, 'n': n, 'args': args, 'vars': vars_, 'in_axes': in_axes, 'out_axes': out_axes, 'length': length, 'reverse': reverse, 'prog': prog, 'cpos': cpos, 'single': single}
+    if group:
+      case['bcast_leaves'] = len(group)
+      # the None leaves as separate arguments, or as one dict / tuple argument under a single None prefix
+      case['group'] = [group, rng.choice(['dict', 'tuple'])] if 't' in in_axes and rng.random() < 0.6 else None
     if kind == 'out_none':
       if 't' not in out_axes or len(outp) < 2 and cpos is not None and len(outp) < 2:
         continue
@@ -1168,6 +1200,15 @@ def ref_scan(case, rows=None):
   return {'rows': rows, 'store': {vid: arr_json(v) for vid, v in store.items()}, 'outs': outs, 'bcast_written': bcast_written}
 
 
+def _group_wrapper(f0, lo, k, tkind):
+  def g(*gargs):
+    t = gargs[lo]
+    flat = [t[f'k{j}'] for j in range(k)] if tkind == 'dict' else list(t)
+    return f0(*gargs[:lo], *flat, *gargs[lo + 1 :])
+
+  return g
+
+
 SCAN_ERR_KINDS = ('noaxis', 'inconsistent', 'out_none', 'multiple_carry', 'carry_mismatch', 'carry_all_arity', 'carry_refs', 'sa_on_array', 'length_mismatch', 'arity')
 
 
@@ -1188,7 +1229,19 @@ def check_scan(ctx, drv, cases):
 
     def transform(objs, case=case, sugar=sugar):
       f = make_scan_fn(case['prog'], case['cpos'], case['single'])
-      r = nnx.scan(f, in_axes=axes_python(case['in_axes'], sugar), out_axes=axes_python(case['out_axes'], sugar), length=case['length'], reverse=case['reverse'])(*objs)
+      in_ax = axes_python(case['in_axes'], sugar)
+      call_args = list(objs)
+      if case.get('group'):
+        # present the None leaves as ONE pytree argument with a single None prefix (broadcast_prefix spreads it)
+        idx, tkind = case['group']
+        lo, hi = idx[0], idx[-1] + 1
+        leaves = call_args[lo:hi]
+        tree = {f'k{j}': v for j, v in enumerate(leaves)} if tkind == 'dict' else tuple(leaves)
+        call_args[lo:hi] = [tree]
+        in_ax = tuple(in_ax[:lo]) + (None,) + tuple(in_ax[hi:])
+        f = _group_wrapper(f, lo, hi - lo, tkind)
+
+      r = nnx.scan(f, in_axes=in_ax, out_axes=axes_python(case['out_axes'], sugar), length=case['length'], reverse=case['reverse'])(*call_args)
       r = (r,) if case['single'] else tuple(r)
       cp = case['cpos']
       cref = (objs[cp], cp) if cp is not None and isinstance(objs[cp], Mod) else None
@@ -1207,6 +1260,7 @@ def check_scan(ctx, drv, cases):
     ctx.count('scan_n', case['n'])
     ctx.count('scan_form', 'all' if 'u' in case['in_axes'] and case['in_axes']['u'] == 'carry' else ('carry' if case['cpos'] is not None else 'nocarry'))
     ctx.count('scan_reverse', case['reverse'])
+    ctx.count('scan_none_leaves', str(case.get('bcast_leaves', sum(1 for a, p in zip(case['args'], expand(case['in_axes'], len(case['args'])) or []) if 'arr' in a and p is None))) + ('/' + case['group'][1] if case.get('group') else ''))
     ctx.count('scan_result', res[0] if res[0] == 'ok' else res[1])
     orig = {vid: arr_json(case['vars'][vid]['value']) for vid in case['vars']}
     if case['kind'] == 'ok' and ref is not None and 'store' in ref and not ref['bcast_written']:
@@ -1694,7 +1748,7 @@ def run(ctx):
   # traced: the three transforms
   mult = 1 if not thorough else 50
   vm = _gen_many(gen_vmap_case, rng, ['ok'] * (34 * mult) + list(VMAP_ERR_KINDS) * mult)
-  sc = _gen_many(gen_scan_case, rng, ['ok'] * (34 * mult) + list(SCAN_ERR_KINDS) * mult + (['bcast_write'] * (2 * mult) if 'scan-broadcast-write-dropped' in known else []))
+  sc = _gen_many(gen_scan_case, rng, ['ok'] * (30 * mult) + ['ok_bcast'] * (10 * mult) + list(SCAN_ERR_KINDS) * mult + (['bcast_write'] * (2 * mult) if 'scan-broadcast-write-dropped' in known else []))
   gr = _gen_many(gen_grad_case, rng, ['ok'] * (40 * mult) + ['inconsistent', 'repeated'] * (3 * mult))
   for i in range(0, len(vm), 60):
     check_vmap(ctx, drv, vm[i : i + 60])
